@@ -23,12 +23,15 @@ ASSUMPTIONS = [
 NSHARDS = {"quick": 16, "thorough": 16}
 N_MIX = {"quick": 200, "thorough": 5000}
 N_SIM = {"quick": 16, "thorough": 400}
-REQUIRE = {"kill_individual": 500, "kill_pool_level": 100, "suspend_accepted": 200, "assignment_after_suspension": 50,
+REQUIRE = {"kill_individual": 500, "kill_pool_level": 100, "ticks_with_more_than_8_pool_level_kills": 10, "suspend_accepted": 200, "assignment_after_suspension": 50,
            "sim_kill_ticks_judged": 50, "sim_runs": 50, "ticks_with_empty_pool": 100}
 
 
 def cases(tier, seed, shard, nshards):
     rng = rng_for(ID, seed, shard)
+    for _m in range(2 if tier == "quick" else 40):
+        # many containers start in one tick and overload one overcommitted pool: 9 .. 60 pool-level kills in one tick
+        yield _exec.mass_start_case(rng)
     if tier == "thorough" or shard < 3:
         for _b in range(1 if tier == "quick" else 2):
             yield _exec.busy_case(rng, 4500 if tier == "quick" else 9000, growing=True, p_suspend=0.1)
